@@ -224,10 +224,12 @@ impl<T: Ord> BinaryHeap<T> {
     pub fn iter(&self) -> impl Iterator<Item = &T> { self.slots.iter().filter_map(|s| s.as_ref()) }
 }
 
-/// Stand-in for a small `Vec<T>` (push / take / by-value iteration in insertion order) with inline
-/// storage.  Documented stub, same reason as `BinaryHeap` above: CBMC loses precision on the real
-/// `Vec` buffer after repeated allocate / into_iter / free rounds inside `CurrentBatch::flush`
-/// (spurious "pointer to unallocated memory" failures on schedules with three or more flushes).
+/// Stand-in for a small `Vec<T>` with inline storage (push / take / by-value iteration in insertion
+/// order, plus the handful of slice methods the extracted kernels use).  Documented stub, same
+/// reason as `BinaryHeap` above: CBMC loses precision on real `Vec` buffers (spurious "pointer to
+/// unallocated memory" failures after repeated allocate / into_iter / free rounds in
+/// `CurrentBatch::flush`; out of memory for `Vec::remove` at a symbolic index in `CalleeOrder`).
+#[derive(Debug, Clone, PartialEq, Eq, PartialOrd, Ord)]
 pub struct SVec<T> {
     slots: [Option<T>; SVEC_CAP],
     len: usize,
@@ -245,6 +247,46 @@ impl<T> SVec<T> {
     }
     pub fn len(&self) -> usize { self.len }
     pub fn is_empty(&self) -> bool { self.len == 0 }
+    pub fn clear(&mut self) {
+        let mut i = 0;
+        while i < SVEC_CAP { self.slots[i] = None; i += 1; }
+        self.len = 0;
+    }
+    pub fn last_mut(&mut self) -> Option<&mut T> {
+        if self.len == 0 { None } else { self.slots[self.len - 1].as_mut() }
+    }
+    pub fn iter(&self) -> std::iter::FilterMap<std::slice::Iter<'_, Option<T>>, fn(&Option<T>) -> Option<&T>> {
+        fn r<T>(s: &Option<T>) -> Option<&T> { s.as_ref() }
+        self.slots.iter().filter_map(r::<T> as fn(&Option<T>) -> Option<&T>)
+    }
+    pub fn iter_mut(&mut self) -> std::iter::FilterMap<std::slice::IterMut<'_, Option<T>>, fn(&mut Option<T>) -> Option<&mut T>> {
+        fn r<T>(s: &mut Option<T>) -> Option<&mut T> { s.as_mut() }
+        self.slots.iter_mut().filter_map(r::<T> as fn(&mut Option<T>) -> Option<&mut T>)
+    }
+    /// like `Vec::remove`: shifts the tail left, keeps the order
+    pub fn remove(&mut self, index: usize) -> T {
+        assert!(index < self.len, "removal index out of bounds");
+        let out = self.slots[index].take().unwrap();
+        let mut i = index;
+        while i + 1 < self.len {
+            self.slots[i] = self.slots[i + 1].take();
+            i += 1;
+        }
+        self.len -= 1;
+        out
+    }
+    /// like `Vec::swap_remove`: the last element takes the hole
+    pub fn swap_remove(&mut self, index: usize) -> T {
+        assert!(index < self.len, "swap_remove index out of bounds");
+        let out = self.slots[index].take().unwrap();
+        if index + 1 < self.len { self.slots[index] = self.slots[self.len - 1].take(); }
+        self.len -= 1;
+        out
+    }
+}
+impl<T> std::ops::Index<usize> for SVec<T> {
+    type Output = T;
+    fn index(&self, i: usize) -> &T { assert!(i < self.len); self.slots[i].as_ref().unwrap() }
 }
 pub struct SVecIntoIter<T> { v: SVec<T>, next: usize }
 impl<T> Iterator for SVecIntoIter<T> {
